@@ -31,10 +31,10 @@ _c("C08", "exploration", "property-based testing (proptest): scripted reference 
    "Generated per-stream frame lists followed by FIN in one transport write with generated fragmentation, late/early readers with tiny buffers, reverse traffic before/after the FIN, siblings; both roles. Sampling. Server side with a reference client that sends FIN, also before the SYNACK (srv_fin: the target must see every byte and then end-of-stream, not a reset; also with 4-61 s of silence in the middle of the upload or of the reply). End to end (Lab-S): who closes or half-closes first (application, target) with amounts in flight in both directions through SOCKS5 -> client -> server -> target; P2/P3 (all data before the end, reverse direction alive) are armed, P1 (EOF arrives) is the listed known finding.",
    "trusts reference codec, H4 table sizes, paused clock")
 _c("C09", "fault_enumeration", "fault enumeration over byte offsets of a recorded fault-free run + property-based sampling of scenario x cause x position x schedule (proptest), virtual-time watchdog",
-   "Each cause (peer EOF, three read errors, write error at byte k, flush error, Alert, liveness timeout, owner close, hanging shutdown) is injected at offsets enumerated from the fault-free recording of the same scenario, in both roles, with blocked readers, pending opens and queued writers; release invariants judged after one virtual hour.",
+   "Each cause (peer EOF, three read errors, write error at byte k, flush error, Alert, liveness timeout, owner close, hanging shutdown) is injected at offsets enumerated from the fault-free recording of the same scenario, in both roles, with blocked readers, pending opens and queued writers (for the liveness cause also with a peer that stops reading, so that writes back up in the transport); release invariants judged after one virtual hour.",
    "blocks forever = not completed after one virtual hour (documented bounds <= 60 s); the session's task-exit is judged only when the peer can observe the close")
 _c("C10", "exploration", "property-based testing (proptest) in virtual time: real Client::create_proxy_stream on an in-memory pooled session vs a reference verdict function of the generated answer timeline",
-   "1-6 racing opens (sequentially started or truly overlapping in open_stream over small-capacity transports with forced pre-emptions), answers (ok / error text / none) at 0, 1 ms, 29.999 s, 30 s, 30.001 s, duplicated, stray, cross-addressed, long / multi-byte / invalid UTF-8 reasons, peer versions 0-2, session death during the wait (the call must end when the session dies, not at the timeout). Sampling.",
+   "1-6 racing opens (sequentially started or truly overlapping in open_stream over small-capacity transports with forced pre-emptions, optionally while the peer sends FINs for unknown ids), answers (ok / error text / none) at 0, 1 ms, 29.999 s, 30 s, 30.001 s, duplicated, stray, cross-addressed, long / multi-byte / invalid UTF-8 reasons, peer versions 0-2, session death during the wait (the call must end when the session dies, not at the timeout). Sampling.",
    "an answer exactly at the 30 s deadline may go either way; H3 gives access to the pool")
 _c("C11", "exploration", "schedule exploration by property-based testing (proptest): generated yield counts at instrumented points + spawn order + transport back-pressure; invariants over the reference-parsed wire vs submission logs",
    "2-5 writer tasks on one fresh session doing what real callers do (incl. 65530-65540-byte sends), transport stalls of up to 61 s mid-history, the session's own keep-alive monitor as one more writer, crowds of 20-150 tasks opening on a fresh session before any of them writes; wire must parse, equal the submitted multiset, keep per-task FIFO, start with the settings frame and keep SYN before PSH. Plus simultaneous first requests on a real client with an empty pool on a multi-threaded runtime with runtime threads stalled at trace events (fresh_burst). Sampling of schedules at hook points and stall points only.",
@@ -49,7 +49,7 @@ _c("C17", "exploration", "property-based differential testing (proptest) of the 
    "Generated well-formed proxy requests (all target forms, IPv6, ports, header sets up to ~64 KiB, Host in any case/position, body prefix) through the private parse+rewrite functions (H6). Lab-S family `proxy`: the same request grammar in generated TCP segmentations (cuts inside the header terminator, header sizes at multiples of the 1 KiB read size, bursts of 8 KiB - 300 KB behind the header) against the real HTTP listener -> client -> server -> recording origin; CONNECT: 200 only after the tunnel exists, 502 otherwise, early data forwarded; libFuzzer target http_rewrite.",
    "generator restricted to what senders produce (lower-case scheme, no userinfo, UTF-8); reference per RFC 7230 §5.3/5.4")
 _c("C18", "fault_enumeration", "enumeration of on-disk fault states (every truncation prefix, missing/garbled/mismatched/expired files) + property-based reload histories (proptest) vs a last-good-pair model, with real in-memory TLS handshakes",
-   "Pool of single certificates and chain files (leaf + CA). After every step the leaf certificate presented in a real handshake (signature verified), cert info and counters must match the last pair whose reload succeeded; old connections keep working. Plus the real Server::new_with_reloadable_tls accept path on loopback.",
+   "Pool of single certificates and chain files (leaf + CA); paths that are symbolic links, files written with preserved or decreasing modification times. After every step the leaf certificate presented in a real handshake (signature verified), cert info and counters must match the last pair whose reload succeeded; old connections keep working. Plus the real Server::new_with_reloadable_tls accept path on loopback.",
    "prefixes ending inside the final PEM line may load or not; watcher/debounce not driven")
 
 _c("C07", "exploration", "property-based testing (proptest): round trip + differential against a reference SOCKS address codec (Lab-M), resolver histories against a fake DNS, end-to-end dial histories on loopback",
@@ -60,7 +60,7 @@ _c("C16", "exploration", "property-based testing (proptest) of the real SOCKS5 l
    "kernel loopback timing; one shared world per worker thread; localhost resolves to 127.0.0.1")
 
 _c("C13", "exploration", "property-based testing (proptest) of request histories through the real SOCKS5 front-end with a counting TCP forwarder in front of the real server; invariants over the connection counts",
-   "Generated sequential/bursty request histories with pauses, requests to a closed port and network cuts of every / of one established session, pool settings varied (incl. 1 s / 2 s timers); the forwarder counts TLS connections opened and still open and the client's idle_count is compared with the pool model after every step. Lab-M family `pooled`: a real Client with in-memory pooled sessions, housekeeping concurrent with requests - a request must be served from the pool whenever a healthy session must survive. r2 (second non-overlapping request reuses) is armed; r3+ and the bound are listed known findings with witnesses (sessions are never returned to the pool).",
+   "Generated sequential/bursty request histories with pauses, requests to a closed port, network cuts of every / of one established session and bursts in which one dial is accepted, left unanswered and cut late, pool settings varied (incl. 1 s / 2 s timers); the forwarder counts TLS connections opened and still open and the client's idle_count is compared with the pool model after every step. Lab-M family `pooled`: a real Client with in-memory pooled sessions, housekeeping concurrent with requests - a request must be served from the pool whenever a healthy session must survive. r2 (second non-overlapping request reuses) is armed; r3+ and the bound are listed known findings with witnesses (sessions are never returned to the pool).",
    "kernel loopback; forwarder accept count = sessions dialled; pool model: dial inserts, reuse removes, nothing returns (today's lifecycle)")
 _c("C15", "exploration", "property-based testing (proptest): end-to-end datagram sequences, in lock-step and in back-to-back bursts, through create_udp_proxy on loopback, and the server relay fed a reference UDP-over-TCP stream with generated fragmentation",
    "Datagram sizes 1..65507 with keyed contents in both directions through the real client/server; IPv4 and IPv6 targets, stray datagrams from a third socket to the relay, bursts of 2-7 datagrams of different sizes queued on a relay socket at once (compared as multisets); server relay alone with cuts inside length prefixes and several packets per chunk; the real client's association against a reference server that echoes each datagram in fragments with 0-2600 ms between the frames; exactly-one/identical/ordered delivery and silence of a decoy socket.",
